@@ -7,6 +7,12 @@ Driver for the keepalive model (C16): executes `Penguin.Timing.Options.build` an
       -> `ok <I> <T> <dg> <sb> <bb> <fr> <rw> <th>` | `panic`
   run <I|-> <T|-> <H> <rest|-> <extra csv|-> <d0|-> <d1|-> …
       -> `pings <csv|-> end alive` | `pings <csv|-> end timeout <t>` | `panic`
+  runb <B> <I|-> <T|-> <H> <rest|-> <extra csv|-> <d0|-> <d1|-> …
+      the same run with the transport's sink blocked from time B on (it accepts nothing more, the peer
+      has stopped reading): the ping loop is the same machine (a `Ping` is put on the endpoint's
+      unbounded outbound queue, task.rs `schedule_ping_task`, which never waits for the sink), but a
+      ping due at or after B reaches neither the sink nor the peer — it is never answered and is not
+      among the pings observed on the transport.
 -/
 import Penguin.Basic.Bytes
 import Penguin.Basic.Loop
@@ -53,6 +59,11 @@ def showOutcome : Outcome → String
       | some t => s!"timeout {t}"
     s!"pings {csv s.pings.reverse} end {e}"
 
+/-- Pings that reached the sink before it was blocked at time `b`. -/
+def showOutcomeBlocked (b : Nat) : Outcome → String
+  | .panic => "panic"
+  | .ok s => showOutcome (.ok { s with pings := s.pings.filter (· < b) })
+
 def step (_ : Unit) (line : String) : Unit × String :=
   let out :=
     match tokens line with
@@ -69,6 +80,14 @@ def step (_ : Unit) (line : String) : Unit × String :=
         let o : Options := { Options.new with keepaliveInterval := i, keepaliveTimeout := t }
         showOutcome (keepalive o (scriptDelay delays rest) extra h)
       | _, _, _, _, _, _ => "bad-op"
+    | "runb" :: b :: i :: t :: h :: rest :: extra :: delays =>
+      match b.toNat?, parseOd i, parseOd t, h.toNat?, parseOd rest, parseCsv extra, delays.mapM parseOd with
+      | some b, some i, some t, some h, some rest, some extra, some delays =>
+        let o : Options := { Options.new with keepaliveInterval := i, keepaliveTimeout := t }
+        let iv := i.getD 0
+        let delay : Nat → Option Nat := fun k => if k * iv ≥ b then none else scriptDelay delays rest k
+        showOutcomeBlocked b (keepalive o delay extra h)
+      | _, _, _, _, _, _, _ => "bad-op"
     | _ => "bad-op"
   ((), out)
 
